@@ -1653,6 +1653,19 @@ pub fn spin_programs(tier: &str) -> Vec<Program> {
         vec![],
         vec![],
     ));
+    // the same loops spinning with `hint::spin_loop()` instead of `thread::yield_now()`
+    let step = if tier == "quick" { 4 } else { 1 };
+    let hinted: Vec<Program> = v
+        .iter()
+        .step_by(step)
+        .map(|p| {
+            let mut q = p.clone();
+            q.objs.spin_hint = true;
+            q.name = format!("{}+hint", q.name);
+            q
+        })
+        .collect();
+    v.extend(hinted);
     v
 }
 
